@@ -42,9 +42,14 @@ Definition code_char (acc : list N) (c : N) : list token * tmode * list N :=
   else if is_wordc c then ([], LCode, c :: acc)
   else (flush acc ++ [TPunct c], LCode, []).
 
+Section Lexer.
+  (* the characters at which a line comment ends (gen: trivia_comment_terms) *)
+  Variable terms : list N.
+  Definition is_cterm (c : N) : bool := existsb (N.eqb c) terms.
+
 Definition tstep (m : tmode) (acc : list N) (c : N) : list token * tmode * list N :=
   match m with
-  | LComment => ([], (if c =? c_nl then LCode else LComment), [])
+  | LComment => ([], (if is_cterm c then LCode else LComment), [])
   | LStrEsc => ([], LStr, c :: acc)
   | LStr => if c =? c_bslash then ([], LStrEsc, c :: acc)
             else if c =? c_quote then ([TStr (rev acc)], LCode, [])
@@ -99,7 +104,8 @@ Fixpoint flip_words (m : tmode) (acc : list N) (mask : list bool) (cs : list N) 
 (* ---- trivia ------------------------------------------------------------------------------ *)
 Inductive trivia : list N -> Prop :=
 | tr_ws c : is_ws c = true -> trivia [c]
-| tr_comment body : ~ In c_nl body -> trivia (c_slash :: c_slash :: body ++ [c_nl])
+| tr_comment body t : (forall x, In x body -> is_cterm x = false) -> is_cterm t = true ->
+                      trivia (c_slash :: c_slash :: body ++ [t])
 | tr_app t1 t2 : trivia t1 -> trivia t2 -> trivia (t1 ++ t2).
 
 Definition starts_word (cs : list N) : bool :=
@@ -129,3 +135,4 @@ Fixpoint toks_eqb (a b : list token) : bool :=
   end.
 
 Definition lex_equiv (a b : list N) : bool := toks_eqb (tokens_ci a) (tokens_ci b).
+End Lexer.
